@@ -338,6 +338,9 @@ func c07Run(sc *C07Sc, evs []world.Event, budget int, env *Env) (*c07Final, *Vio
 			break
 		}
 	}
+	if m.Mutated != "" {
+		return nil, viol("request-value-modified", "%s", m.Mutated)
+	}
 	if m.StaleCount() != 0 {
 		return nil, viol("stale-device", "%d accesses went to a Memory/IO value the host had already replaced", m.StaleCount())
 	}
